@@ -426,6 +426,9 @@ def to_py(vj, P: Program):
         cls = P.classes[vj[1]]
         return cls(**{k: to_py(v, P) for k, v in vj[2]})
     if tag == "x":
+        if len(vj) > 1 and vj[1] == "binary":
+            # bytes that are not text in any carrier (a raw digest): opaque to the model, judged by the oracles on the real library
+            return b"\xff\xfe\x00\x01\x80"
         return Opaque()
     raise ValueError(vj)
 
